@@ -204,6 +204,16 @@ let eval (line : string) : string =
       let v = parse_val toks pos in
       let (bytes, ok) = op_spec be p v in
       Printf.sprintf "spec=%s encodable=%s" (hex_of_list bytes) (b2s ok)
+  | "BV" | "BA" ->
+      (* whole-body decoders on (signature hex, body hex): MarshalledMessageBody::validate, MarshalledMessage::unmarshall_all *)
+      let be = be_of (next ()) in
+      let nfds = n_of_string (next ()) in
+      let sg = list_of_hex (next ()) in
+      let buf = list_of_hex (next ()) in
+      if op = "BV" then (if op_body_validate be sg buf then "ok" else "err")
+      else (match body_unmarshall_all be nfds sg buf with
+            | Ok xs -> Printf.sprintf "ok %d %s" (List.length xs) (String.concat " " (List.concat_map tok_of_val xs))
+            | o -> status o)
   | "VR" | "UP" ->
       let be = be_of (next ()) in
       let offset = n_of_string (next ()) in
